@@ -629,7 +629,14 @@ void Engine<Policy>::do_encode() {
             return;
         }
         std::ostringstream os;
-        generator::encode_dispatch_data(*comp_, "P", os);
+        last_encoded_.clear();
+        try {
+            generator::encode_dispatch_data(*comp_, "P", os);
+        } catch (const std::length_error&) {
+            // a value does not fit the 16-bit codes: nothing usable was emitted
+            emit("encode refused");
+            return;
+        }
         last_encoded_ = os.str();
         auto p = parse_encoding(last_encoded_);
         if (!p.ok) {
@@ -875,6 +882,34 @@ void Engine<Policy>::op(const std::vector<std::string>& tok) {
         info->pf = mr.slot->pool[j];
         mr.def_info[j] = info;
         mr.slot->info->specs.push_back(*info);
+    } else if (cmd == "ghostdefs") {
+        // ghostdefs <key> <n> <vp ids...> : n more definitions of the method, all with the same
+        // parameter classes and sharing the function of the method's first pool entry. With n >= 2 they
+        // are ambiguous among themselves, so no call ever runs one: they only occupy definition indices.
+        long key = tol(tok.at(1));
+        long n = tol(tok.at(2));
+        auto it = methods_.find(key);
+        if (it == methods_.end()) {
+            emit("!harness ghostdefs of unknown method");
+            return;
+        }
+        auto& mr = it->second;
+        auto vp = new std::vector<type_id>();
+        for (std::size_t i = 3; i < tok.size(); ++i) {
+            vp->push_back(make_id(toid(tok[i])));
+        }
+        auto nvp = vp->size();
+        vp->push_back(0);
+        for (long i = 0; i < n; ++i) {
+            auto info = new (::operator new(sizeof(detail::definition_info))) detail::definition_info();
+            info->method = nullptr;
+            info->type = 0;
+            info->next = new void*(nullptr);
+            info->vp_begin = vp->data();
+            info->vp_end = vp->data() + nvp;
+            info->pf = mr.slot->pool[0];
+            mr.slot->info->specs.push_back(*info);
+        }
     } else if (cmd == "undef") {
         long key = tol(tok.at(1));
         long def = tol(tok.at(2));
